@@ -819,6 +819,7 @@ pub fn gen(ctx: &Ctx, emit: &mut dyn FnMut(String)) {
     crate::prop::c12lists::gen(ctx, emit);
     crate::prop::c12unit::gen(ctx, emit);
     crate::prop::c12cfi::gen(ctx, emit);
+    crate::prop::c12line::gen(ctx, emit);
     let mut rng = ctx.rng(12);
     // Model/ConvLine.lean vs the code: every instruction list over a small alphabet up to a
     // length (exhaustive), then random longer ones with several sequences
